@@ -2,7 +2,9 @@ package logger
 
 import (
 	"context"
+	"fmt"
 	"log/slog"
+	"reflect"
 )
 
 // Options is the common options for all handlers.
@@ -49,4 +51,19 @@ type Handler interface {
 	WithAttrs(attrs []slog.Attr) Handler
 	WithGroup(name string) Handler
 	Handle(context.Context, slog.Record) error
+}
+
+// safeCall returns f(), tolerating a method that panics like fmt and log/slog do:
+// a nil pointer receiver (v is the value the method belongs to) gives "<nil>".
+func safeCall(v any, f func() string) (s string) {
+	defer func() {
+		if r := recover(); r != nil {
+			if rv := reflect.ValueOf(v); rv.Kind() == reflect.Pointer && rv.IsNil() {
+				s = "<nil>"
+			} else {
+				s = fmt.Sprintf("!PANIC: %v", r)
+			}
+		}
+	}()
+	return f()
 }
